@@ -888,7 +888,7 @@ func (e *driverEnv) evidence(pl plan, a *agg, wall, mainWall float64, mainRuns, 
 		samples = append(samples, s)
 	}
 	// one complete run description as a sample
-	samples = append(samples, generate(e.prop, e.tier, e.base, 0))
+	samples = append(samples, generate(e.prop, e.tier, e.base, 5)) // an ordinary run (C15: runs 0-2 of a block are sweeps with thousands of operations)
 	distinct := len(a.caseKeys)
 	rule := ""
 	switch e.prop {
